@@ -24,9 +24,23 @@
 (*   clear          _lua_clear_timeout_hook(); INNER                        *)
 (*   rearm          _lua_set_timeout(59); INNER                             *)
 (*   inv            frame:preprocess("{{#invoke:benign|f}}"); INNER         *)
+(*   ninv ninvt ninvx   INNER runs in a NESTED invocation: the module calls  *)
+(*                  frame:preprocess("{{#invoke:self|n}}") / frame:          *)
+(*                  expandTemplate of a template that invokes / frame:       *)
+(*                  extensionTag(.., "{{#invoke:self|n}}") and p.n is INNER. *)
+(*                  WHERE the non-terminating code runs (in the outermost    *)
+(*                  invocation or in one reached through Python and back) is *)
+(*                  a dimension of the grammar: the nested call_lua_sandbox  *)
+(*                  turns every error of the nested function into an in-band *)
+(*                  element - right for an ordinary error, but the time limit *)
+(*                  is the limit of the OUTERMOST invocation: when it strikes *)
+(*                  inside a nested one the enclosing code must end too.     *)
 (* bodies: tight (while true do end), lib (loop calling string functions),  *)
 (* tailrec (infinite tail recursion), deeprec (unbounded non-tail recursion: *)
-(* ends quickly with an ordinary "stack overflow" error).                   *)
+(* ends quickly with an ordinary "stack overflow" error), invloop (a loop    *)
+(* that keeps making benign nested invocations: the count hook practically   *)
+(* always fires inside one of them, often before it has pushed its           *)
+(* environment).                                                            *)
 (*                                                                          *)
 (* Dev = deviations of the code from the demanded behaviour:                *)
 (*   PcallCatchesTimeout     pcall/xpcall/coroutine.resume of the sandbox   *)
@@ -39,6 +53,11 @@
 (*   NestedInvokeResetsHook  a nested #invoke (frame:preprocess) re-arms    *)
 (*                           the hook with the default limit and clears it  *)
 (*                           when it returns                                *)
+(*   NestedTimeoutInBand     the time limit striking inside a nested         *)
+(*                           invocation is turned into the in-band element   *)
+(*                           of THAT invocation and the enclosing module     *)
+(*                           carries on: one shot -> returns its own value   *)
+(*                           after the limit; in a loop -> never ends        *)
 EXTENDS Naturals, Sequences, FiniteSets, TLC
 
 CONSTANTS
@@ -46,25 +65,28 @@ CONSTANTS
   B,          \* instructions between two hook firings (abstract, >= 1)
   RecMax      \* steps after which deeprec overflows the stack (< B)
 
-DevNames == {"PcallCatchesTimeout", "CoroutineNoHook", "HookControlExported", "NestedInvokeResetsHook"}
+DevNames == {"PcallCatchesTimeout", "CoroutineNoHook", "HookControlExported", "NestedInvokeResetsHook", "NestedTimeoutInBand"}
 Limit0 == 1          \* configured limit (clock granules); Start = 0, deadline D = 1; one granule stands for any configured limit in (0, 1] s, fractions included (harness limit_of)
 Big == 9             \* a limit that does not expire within the horizon (59 s / 60 s)
 Horizon == 3
 D == Limit0
 
-Infinite == {"tight", "lib", "tailrec"}
+Infinite == {"tight", "lib", "tailrec", "invloop"}
 AllBodies == Infinite \cup {"deeprec"}
 Catchers == {"pcall", "xpcall", "xpcallh", "cores"}
 Loops == {"ploop", "xloop", "xlooph"}
 CoKinds == {"cowrap", "cores"}
 Controls == {"clear", "rearm", "inv"}
-AllKinds == Catchers \cup Loops \cup {"cowrap"} \cup Controls
+NestedKinds == {"ninv", "ninvt", "ninvx"}
+AllKinds == Catchers \cup Loops \cup {"cowrap"} \cup Controls \cup NestedKinds
 
 (* ------------------------------------------------------------------ *)
 (* what the property demands of a program                              *)
 (* ------------------------------------------------------------------ *)
 HasLoop(W) == \E i \in DOMAIN W : W[i] \in Loops
-HasCatcher(W) == \E i \in DOMAIN W : W[i] \in Catchers
+\* an ordinary error ends at the nearest protected call of the module - or at the boundary of the
+\* nested invocation it happened in (in-band error element, the enclosing module goes on)
+HasCatcher(W) == \E i \in DOMAIN W : W[i] \in Catchers \cup NestedKinds
 NonTerminating(b, W) == b \in Infinite \/ HasLoop(W)
 \* non-terminating code must end as the in-band timeout element; terminating
 \* code of the grammar ends on its own (error element, or normal return when
@@ -78,7 +100,9 @@ Demand(b, W) ==
 (*   state s: hk = hook armed on the current thread, mh = on the main   *)
 (*   thread, big = shared limit replaced by a long one, main = current  *)
 (*   thread is the main thread.  Result r: T raises timeout, E raises   *)
-(*   an ordinary error, N returns normally, H does not end in the bound *)
+(*   an ordinary error, N returns normally, H does not end in the bound, *)
+(*   A returns normally after the time limit struck inside a nested      *)
+(*   invocation and was handed to the module as an in-band element       *)
 (* ------------------------------------------------------------------ *)
 Eff(s) == s.hk /\ ~s.big
 
@@ -87,6 +111,11 @@ Caught(r, Dv) == CASE r = "T" -> IF "PcallCatchesTimeout" \in Dv THEN "N" ELSE "
                    [] r = "E" -> "N"
                    [] OTHER -> r
 
+\* what the boundary of a nested invocation makes of the result of the nested function
+NestedResult(r, Dv) == CASE r = "T" -> IF "NestedTimeoutInBand" \in Dv THEN "A" ELSE "T"
+                         [] r = "E" -> "N"
+                         [] OTHER -> r
+
 \* Sem = [rs |-> set of possible results, s |-> hook state afterwards].  The only
 \* source of non-determinism is WHERE the count hook fires in a catch-and-continue loop
 \* whose iterations end by themselves: inside the protected call (caught, the loop goes
@@ -94,6 +123,18 @@ Caught(r, Dv) == CASE r = "T" -> IF "PcallCatchesTimeout" \in Dv THEN "N" ELSE "
 RECURSIVE Sem(_, _, _, _, _)
 Sem(b, W, i, s, Dv) ==
   IF i > Len(W) THEN
+    IF b = "invloop" THEN
+      \* the benign nested invocations run on the main thread; the hook fires in the loop statement
+      \* (current thread) or inside one of them (main thread)
+      LET reset == "NestedInvokeResetsHook" \in Dv
+          s2 == IF reset THEN [s EXCEPT !.hk = IF s.main THEN FALSE ELSE s.hk, !.mh = FALSE, !.big = TRUE] ELSE s
+          fireOuter == s2.hk /\ ~s2.big
+          fireNested == s2.mh /\ ~s2.big
+      IN [rs |-> (IF fireOuter THEN {"T"} ELSE {})
+                 \cup (IF fireNested THEN {IF "NestedTimeoutInBand" \in Dv THEN "H" ELSE "T"} ELSE {})
+                 \cup (IF ~fireOuter /\ ~fireNested THEN {"H"} ELSE {}),
+          s |-> s2]
+    ELSE
     [rs |-> {IF b \in Infinite THEN (IF Eff(s) THEN "T" ELSE "H") ELSE "E"}, s |-> s]
   ELSE
     LET w == W[i] IN
@@ -107,17 +148,27 @@ Sem(b, W, i, s, Dv) ==
            IN [rs |-> IF w = "cowrap" THEN x.rs ELSE {Caught(r, Dv) : r \in x.rs}, s |-> back]
       [] w \in Loops ->
            LET x == Sem(b, W, i + 1, s, Dv)
-               ending == x.rs \ {"H"}      \* iterations that come to an end
                repaired == "PcallCatchesTimeout" \notin Dv
+               selfend == x.rs \cap {"E", "N"} # {}     \* iterations that come to an end by themselves
+               \* a hook firing inside such an iteration can be absorbed by a nested invocation in it
+               absorbing == "NestedTimeoutInBand" \in Dv /\ \E j \in (i + 1)..Len(W) : W[j] \in NestedKinds
+               \* the absorbed timeout was not raised by the hook but by a protected call re-raising
+               \* after the deadline (iterations of an inner loop that end by themselves): the count
+               \* was not restarted, the hook may fire in this loop's statement
+               reraisedInside == b \notin Infinite /\ \E j \in (i + 1)..Len(W) : W[j] \in Loops
            IN
-           \* every ending iteration ends with an error (the hook's, or deeprec's overflow).
-           \* Repaired pcall: re-raised once the deadline has passed.  Host pcall: caught for
-           \* ever, unless the hook fires in the loop statement, which needs iterations that
-           \* are not themselves ended by the hook (the count restarts at every firing).
-           [rs |-> (IF "H" \in x.rs THEN {"H"} ELSE {})
-                   \cup (IF ending = {} THEN {}
-                         ELSE IF repaired THEN (IF x.s.big THEN {"H"} ELSE {"T"})
-                         ELSE {"H"} \cup (IF Eff(x.s) /\ ending \cap {"E", "N"} # {} THEN {"T"} ELSE {})),
+           \* Iterations ended by the hook (T): the repaired pcall re-raises once the deadline has
+           \* passed, the host pcall catches for ever (the count restarts at every firing, the few
+           \* instructions of the loop statement never reach it).  Iterations in which the hook was
+           \* absorbed by a nested invocation (A) end normally: nothing to re-raise, the loop goes on
+           \* for ever.  Iterations that end by themselves (deeprec's overflow caught, or absorbed by
+           \* the nested boundary): the hook may fire anywhere, also in the loop statement.
+           [rs |-> (IF "H" \in x.rs \/ "A" \in x.rs THEN {"H"} ELSE {})
+                   \cup (IF "A" \in x.rs /\ reraisedInside /\ Eff(x.s) THEN {"T"} ELSE {})
+                   \cup (IF "T" \in x.rs THEN (IF repaired /\ ~x.s.big THEN {"T"} ELSE {"H"}) ELSE {})
+                   \cup (IF ~selfend THEN {}
+                         ELSE IF repaired THEN (IF x.s.big THEN {"H"} ELSE {"T"} \cup (IF absorbing THEN {"H"} ELSE {}))
+                         ELSE {"H"} \cup (IF Eff(x.s) THEN {"T"} ELSE {})),
             s |-> x.s]
       [] w = "clear" ->
            Sem(b, W, i + 1,
@@ -131,9 +182,16 @@ Sem(b, W, i, s, Dv) ==
            Sem(b, W, i + 1,
                IF "NestedInvokeResetsHook" \in Dv
                THEN [s EXCEPT !.hk = IF s.main THEN FALSE ELSE s.hk, !.mh = FALSE, !.big = TRUE] ELSE s, Dv)
+      [] w \in NestedKinds ->   \* the nested _lua_invoke runs INNER on the main Lua thread
+           LET reset == "NestedInvokeResetsHook" \in Dv
+               s1 == [hk |-> reset \/ s.mh, mh |-> reset \/ s.mh, big |-> reset \/ s.big, main |-> TRUE]
+               x == Sem(b, W, i + 1, s1, Dv)
+               mh2 == IF reset THEN FALSE ELSE x.s.mh
+               back == [hk |-> IF s.main THEN mh2 ELSE s.hk, mh |-> mh2, big |-> x.s.big, main |-> s.main]
+           IN [rs |-> {NestedResult(r, Dv) : r \in x.rs}, s |-> back]
 
 S0 == [hk |-> TRUE, mh |-> TRUE, big |-> FALSE, main |-> TRUE]
-OutcomeOf(r) == CASE r = "T" -> "aborted" [] r = "E" -> "error" [] r = "N" -> "returned" [] r = "H" -> "hung"
+OutcomeOf(r) == CASE r = "T" -> "aborted" [] r = "E" -> "error" [] r \in {"N", "A"} -> "returned" [] r = "H" -> "hung"
 \* set of outcome classes the code can show for this program under these deviations
 Pred(b, W, Dv) == {OutcomeOf(r) : r \in Sem(b, W, 1, S0, Dv).rs}
 
@@ -146,7 +204,9 @@ VARIABLES
   phase,     \* run | unwind | ret
   stack,     \* control stack of frames [k, d]: k = kind of the wrapper ("seq" for the transparent
              \* ones), d = its index; a catch-and-continue loop has two frames: "loop" (the loop
-             \* statement) and, while an iteration runs, "lpc" (its protected call)
+             \* statement) and, while an iteration runs, "lpc" (its protected call); the frame of a
+             \* nested invocation (k \in NestedKinds) is the boundary call_lua_sandbox draws: what
+             \* is above it runs in the nested _lua_invoke on the main Lua thread
   err,       \* none | timeout | lua   (error being propagated)
   hooked,    \* thread -> BOOLEAN: count hook installed on that Lua thread
   limit,     \* the shared _lua_current_max_time
@@ -155,7 +215,8 @@ VARIABLES
   now,       \* os.time()
   swallowed, \* a timeout error was caught by module code
   rec,       \* recursion depth of deeprec
-  spin,      \* makes an iteration of an unhooked loop a visible step
+  spin,      \* makes an iteration of an unhooked loop a visible step; body invloop: 0 = in the loop
+             \* statement, 1 = inside the benign nested invocation
   py         \* Python side: depths of expand_stack (above the page), lua_env_stack, lua_frame_stack
 
 vars == <<prog, status, phase, stack, err, hooked, limit, budget, checked, now, swallowed, rec, spin, py>>
@@ -163,12 +224,24 @@ vars == <<prog, status, phase, stack, err, hooked, limit, budget, checked, now, 
 W == prog.wrap
 Done == {"aborted", "error", "returned"}
 Threads == 0..3
-Cur == Cardinality({i \in DOMAIN stack : stack[i].k \in CoKinds})
 Top == stack[Len(stack)]
 Depth == IF stack = <<>> THEN 0 ELSE Top.d
 AtLoopLevel == stack # <<>> /\ Top.k = "loop"
 InBody == status = "running" /\ phase = "run" /\ Depth = Len(W) /\ ~AtLoopLevel
+\* the benign nested invocation of body invloop is running
+InNestedCall == InBody /\ prog.body = "invloop" /\ spin = 1
+\* the current Lua thread: a nested invocation runs on the main thread (0), whatever thread called
+\* it; a coroutine created since then is numbered by the coroutines alive (suspended ones included)
+NBase == IF \E i \in DOMAIN stack : stack[i].k \in NestedKinds
+         THEN CHOOSE i \in DOMAIN stack : stack[i].k \in NestedKinds /\ \A j \in DOMAIN stack : j > i => stack[j].k \notin NestedKinds
+         ELSE 0
+Cur == IF InNestedCall \/ ~\E i \in DOMAIN stack : i > NBase /\ stack[i].k \in CoKinds
+       THEN 0 ELSE Cardinality({i \in DOMAIN stack : stack[i].k \in CoKinds})
 PyZero == [expand |-> 0, env |-> 0, frame |-> 0]
+\* call_lua_sandbox pushes expand_stack / lua_frame_stack, _lua_invoke the environment; popped on the way out
+PyUp(q) == [expand |-> q.expand + 1, env |-> q.env + 1, frame |-> q.frame + 1]
+PyDown(q) == [expand |-> q.expand - 1, env |-> q.env - 1, frame |-> q.frame - 1]
+NestedResets == "NestedInvokeResetsHook" \in Dev
 DeadlinePassed == status = "running" /\ now > D
 
 LTInit(P) ==
@@ -194,29 +267,36 @@ Enter ==
   /\ hooked[Cur] => budget > 0
   /\ budget' = IF hooked[Cur] THEN budget - 1 ELSE budget
   /\ IF AtLoopLevel
-     THEN Push("lpc", Depth) /\ UNCHANGED <<hooked, limit>>      \* next iteration: pcall(function() ... end)
+     THEN Push("lpc", Depth) /\ UNCHANGED <<hooked, limit, py>>      \* next iteration: pcall(function() ... end)
      ELSE LET w == W[Depth + 1] d == Depth + 1 t == Cur IN
      CASE w \in {"pcall", "xpcall", "xpcallh"} ->
-            Push(w, d) /\ UNCHANGED <<hooked, limit>>
+            Push(w, d) /\ UNCHANGED <<hooked, limit, py>>
        [] w \in Loops ->
-            Push("loop", d) /\ UNCHANGED <<hooked, limit>>
+            Push("loop", d) /\ UNCHANGED <<hooked, limit, py>>
        [] w \in CoKinds ->
             /\ Push(w, d)
-            /\ hooked' = [hooked EXCEPT ![t + 1] = "CoroutineNoHook" \notin Dev]
-            /\ UNCHANGED limit
+            /\ hooked' = [hooked EXCEPT ![Cardinality({j \in DOMAIN stack : stack[j].k \in CoKinds}) + 1] = "CoroutineNoHook" \notin Dev]
+            /\ UNCHANGED <<limit, py>>
        [] w = "clear" ->
             /\ Push("seq", d)
             /\ hooked' = IF "HookControlExported" \in Dev THEN [hooked EXCEPT ![t] = FALSE] ELSE hooked
-            /\ UNCHANGED limit
+            /\ UNCHANGED <<limit, py>>
        [] w = "rearm" ->
             /\ Push("seq", d)
             /\ hooked' = IF "HookControlExported" \in Dev THEN [hooked EXCEPT ![t] = TRUE] ELSE hooked
             /\ limit' = IF "HookControlExported" \in Dev THEN Big ELSE limit
+            /\ UNCHANGED py
        [] w = "inv" ->   \* the nested _lua_invoke runs on the main Lua thread
             /\ Push("seq", d)
             /\ hooked' = IF "NestedInvokeResetsHook" \in Dev THEN [hooked EXCEPT ![0] = FALSE] ELSE hooked
             /\ limit' = IF "NestedInvokeResetsHook" \in Dev THEN Big ELSE limit
-  /\ UNCHANGED <<prog, status, phase, err, checked, now, swallowed, rec, spin, py>>
+            /\ UNCHANGED py
+       [] w \in NestedKinds ->   \* call_lua_sandbox -> _lua_invoke for INNER, on the main Lua thread
+            /\ Push(w, d)
+            /\ py' = PyUp(py)
+            /\ hooked' = IF NestedResets THEN [hooked EXCEPT ![0] = TRUE] ELSE hooked
+            /\ limit' = IF NestedResets THEN Big ELSE limit
+  /\ UNCHANGED <<prog, status, phase, err, checked, now, swallowed, rec, spin>>
 
 \* one stretch of instructions of the body
 Step ==
@@ -228,15 +308,27 @@ Step ==
      THEN phase' = "unwind" /\ err' = "lua" /\ rec' = 0
      ELSE /\ rec' = IF prog.body = "deeprec" THEN rec + 1 ELSE rec
           /\ UNCHANGED <<phase, err>>
-  /\ UNCHANGED <<prog, status, stack, hooked, limit, checked, now, swallowed, py>>
+  /\ IF prog.body = "invloop"      \* spin 0 -> 1: the benign nested invocation starts; 1 -> 0: it returns
+     THEN /\ py' = IF spin = 0 THEN PyUp(py) ELSE PyDown(py)
+          /\ hooked' = IF NestedResets THEN [hooked EXCEPT ![0] = (spin = 0)] ELSE hooked
+          /\ limit' = IF NestedResets /\ spin = 0 THEN Big ELSE limit
+     ELSE UNCHANGED <<py, hooked, limit>>
+  /\ UNCHANGED <<prog, status, stack, checked, now, swallowed>>
 
 \* the count hook of the current thread: raises iff the deadline has passed
 HookFires ==
   /\ status = "running" /\ phase = "run" /\ hooked[Cur] /\ budget = 0
   /\ IF now > limit   \* os.time() > start_time + _lua_current_max_time, start_time = 0
-     THEN phase' = "unwind" /\ err' = "timeout" /\ budget' = B /\ UNCHANGED checked
-     ELSE budget' = B /\ checked' = TRUE /\ UNCHANGED <<phase, err>>
-  /\ UNCHANGED <<prog, status, stack, hooked, limit, now, swallowed, rec, spin, py>>
+     THEN /\ budget' = B /\ UNCHANGED checked
+          /\ IF InNestedCall     \* the error leaves the benign nested invocation of body invloop
+             THEN /\ spin' = 0 /\ py' = PyDown(py)
+                  /\ hooked' = IF NestedResets THEN [hooked EXCEPT ![0] = FALSE] ELSE hooked
+                  /\ IF "NestedTimeoutInBand" \in Dev
+                     THEN swallowed' = TRUE /\ UNCHANGED <<phase, err>>   \* in-band element, the loop goes on
+                     ELSE phase' = "unwind" /\ err' = "timeout" /\ UNCHANGED swallowed
+             ELSE phase' = "unwind" /\ err' = "timeout" /\ UNCHANGED <<spin, py, hooked, swallowed>>
+     ELSE budget' = B /\ checked' = TRUE /\ UNCHANGED <<phase, err, spin, py, hooked, swallowed>>
+  /\ UNCHANGED <<prog, status, stack, limit, now, rec>>
 
 \* the clock.  Code that ends by itself ends in no time; while non-terminating code
 \* runs the clock advances, and (hook period << 1 s) the hook of a hooked thread gets
@@ -257,30 +349,47 @@ Reraise == "PcallCatchesTimeout" \notin Dev /\ (err = "timeout" \/ now > limit)
 \* call_lua_sandbox after lua_invoke returned or raised: finally-clause + pops
 Finish(st) ==
   /\ status' = st
-  /\ py' = PyZero
+  /\ py' = PyDown(py)
   /\ hooked' = [t \in Threads |-> FALSE]   \* _lua_clear_timeout_hook / hook inert outside invocations
+
+\* what the boundary of a nested invocation hands to the enclosing module in-band
+NestedAbsorbs == err = "lua" \/ "NestedTimeoutInBand" \in Dev
 
 Unwind ==
   /\ status = "running" /\ phase = "unwind"
   /\ IF stack = <<>>
      THEN /\ Finish(IF err = "timeout" THEN "aborted" ELSE "error")
           /\ UNCHANGED <<phase, stack, err, swallowed>>
-     ELSE /\ UNCHANGED <<status, py, hooked>>
+     ELSE /\ UNCHANGED status
           /\ Pop
-          /\ IF Top.k \in Catchers \cup {"lpc"} /\ ~Reraise
-             THEN phase' = "ret" /\ err' = "none" /\ swallowed' = (swallowed \/ err = "timeout")
-             ELSE /\ err' = IF Top.k \in Catchers \cup {"lpc"} THEN "timeout" ELSE err
-                  /\ UNCHANGED <<phase, swallowed>>
+          /\ IF Top.k \in NestedKinds
+             THEN \* the nested call_lua_sandbox: stacks popped; an ordinary error becomes the in-band
+                  \* error element and the enclosing module goes on; the time limit (the limit of the
+                  \* outermost invocation) is raised in the enclosing module
+                  /\ py' = PyDown(py)
+                  /\ hooked' = IF NestedResets THEN [hooked EXCEPT ![0] = FALSE] ELSE hooked
+                  /\ IF NestedAbsorbs
+                     THEN phase' = "ret" /\ err' = "none" /\ swallowed' = (swallowed \/ err = "timeout")
+                     ELSE UNCHANGED <<phase, err, swallowed>>
+             ELSE /\ UNCHANGED <<py, hooked>>
+                  /\ IF Top.k \in Catchers \cup {"lpc"} /\ ~Reraise
+                     THEN phase' = "ret" /\ err' = "none" /\ swallowed' = (swallowed \/ err = "timeout")
+                     ELSE /\ err' = IF Top.k \in Catchers \cup {"lpc"} THEN "timeout" ELSE err
+                          /\ UNCHANGED <<phase, swallowed>>
   /\ UNCHANGED <<prog, limit, budget, checked, now, rec, spin>>
 
 Ret ==
   /\ status = "running" /\ phase = "ret"
   /\ IF stack = <<>>
      THEN Finish("returned") /\ UNCHANGED <<phase, stack>>
-     ELSE /\ UNCHANGED <<status, py, hooked>>
+     ELSE /\ UNCHANGED status
           /\ IF Top.k = "loop"
-             THEN phase' = "run" /\ UNCHANGED stack
-             ELSE Pop /\ UNCHANGED phase
+             THEN phase' = "run" /\ UNCHANGED <<stack, py, hooked>>
+             ELSE /\ Pop /\ UNCHANGED phase
+                  /\ IF Top.k \in NestedKinds      \* the nested invocation returns its value
+                     THEN /\ py' = PyDown(py)
+                          /\ hooked' = IF NestedResets THEN [hooked EXCEPT ![0] = FALSE] ELSE hooked
+                     ELSE UNCHANGED <<py, hooked>>
   /\ UNCHANGED <<prog, err, limit, budget, checked, now, swallowed, rec, spin>>
 
 ProgNext == Invoke \/ Enter \/ Step \/ HookFires \/ Unwind \/ Ret
@@ -304,7 +413,11 @@ OutcomeMatches ==
 \* C07, liveness part: once the deadline has passed the invocation ends ...
 AbortedAfterDeadline == DeadlinePassed ~> (status \in Done)
 \* ... code that ends by itself does end
-TerminatingEnds == (status = "idle" /\ Pred(prog.body, W, Dev) \subseteq {"error", "returned"}) ~> (status \in Done)
+\* (a loop whose timeout is handed on in-band by a nested invocation - deviation NestedTimeoutInBand -
+\* "returns", but only once the clock has passed the deadline; the loop alternates between phases, so
+\* weak fairness of Tick does not force that: such programs are not code that ends by itself)
+TerminatingEnds == (status = "idle" /\ Pred(prog.body, W, Dev) \subseteq {"error", "returned"}
+                    /\ ~(HasLoop(W) /\ \E i \in DOMAIN W : W[i] \in NestedKinds)) ~> (status \in Done)
 \* ... a raised timeout is never turned into a normal result
 TimeoutNotSwallowed == status = "returned" => ~swallowed
 \* ... and it ends within one clock granule (+ one hook period) after the limit
